@@ -162,8 +162,33 @@ func classifyMapRange(p *Prog, mr mapRange) (string, string) {
 						errOnly = false
 					}
 				} else {
+					// an exit that does more before returning (building the message): every return it can
+					// reach must be an error return
 					earlyReturns++
-					errOnly = false
+					seenX := map[*ssa.BasicBlock]bool{s: true}
+					workX := []*ssa.BasicBlock{s}
+					for len(workX) > 0 {
+						x := workX[len(workX)-1]
+						workX = workX[:len(workX)-1]
+						if r, ok := x.Instrs[len(x.Instrs)-1].(*ssa.Return); ok {
+							if mayReturnNilErr(r) {
+								errOnly = false
+							}
+							continue
+						}
+						if len(x.Succs) == 0 {
+							continue // panic
+						}
+						for _, y := range x.Succs {
+							if mr.Body[y] || y == mr.Head {
+								errOnly = false
+							}
+							if !seenX[y] {
+								seenX[y] = true
+								workX = append(workX, y)
+							}
+						}
+					}
 				}
 			}
 		}
@@ -177,6 +202,91 @@ func classifyMapRange(p *Prog, mr mapRange) (string, string) {
 	}
 	if otherEffects > 0 {
 		return "E4", "the body sends on a channel or starts goroutines"
+	}
+	// writes into another map under a key computed from the loop key: two keys of the ranged map may
+	// collapse onto one (lenient parsing: "1.0.0", "1.0", "1"), and then the last one in iteration order
+	// wins — unless a collision is detected (a comma-ok lookup under that very key whose found edge
+	// only leads to error returns) before the write
+	var kExt ssa.Value
+	if refs := mr.Next.Referrers(); refs != nil {
+		for _, r := range *refs {
+			if ex, ok := r.(*ssa.Extract); ok && ex.Index == 1 {
+				kExt = ex
+			}
+		}
+	}
+	if kExt != nil {
+		for b := range mr.Body {
+			for _, in := range b.Instrs {
+				mu, ok := in.(*ssa.MapUpdate)
+				if !ok || canon(mu.Key) == kExt {
+					continue
+				}
+				// derived through a parser: a call returning (T, error) normalises, so it is not injective;
+				// field selections and String() of the key's components are taken to be
+				derived := false
+				for w := range p.backSlice(mu.Key, 0) {
+					ex, ok := w.(*ssa.Extract)
+					if !ok || ex.Index != 0 {
+						continue
+					}
+					cl, ok := ex.Tuple.(*ssa.Call)
+					if !ok {
+						continue
+					}
+					res := cl.Call.Signature().Results()
+					if res.Len() != 2 || !isErrorType(res.At(1).Type()) {
+						continue
+					}
+					for _, a := range cl.Call.Args {
+						if p.backSlice(a, 0)[kExt] {
+							derived = true
+						}
+					}
+				}
+				if !derived {
+					continue
+				}
+				guardedByCheck := false
+				for b2 := range mr.Body {
+					for _, in2 := range b2.Instrs {
+						lk, ok := in2.(*ssa.Lookup)
+						if !ok || !lk.CommaOk || canon(lk.Index) != canon(mu.Key) {
+							continue
+						}
+						var found ssa.Value
+						if refs := lk.Referrers(); refs != nil {
+							for _, r := range *refs {
+								if ex, ok := r.(*ssa.Extract); ok && ex.Index == 1 {
+									found = ex
+								}
+							}
+						}
+						if found == nil {
+							continue
+						}
+						tE, fE := boolEdges(mr.Fn, found)
+						okErr := len(tE) > 0
+						for _, e := range tE {
+							for x := range reachFromEdge(e) {
+								if r, isRet := x.Instrs[len(x.Instrs)-1].(*ssa.Return); isRet && mayReturnNilErr(r) {
+									okErr = false
+								}
+								if x == mr.Head {
+									okErr = false
+								}
+							}
+						}
+						if okErr && guarded(mu.Block(), fE) {
+							guardedByCheck = true
+						}
+					}
+				}
+				if !guardedByCheck {
+					return "E4", "a map is written under a key parsed from the loop key (" + mapDesc(mu.Map) + "): two keys of the ranged map that compute to the same key overwrite each other in iteration order, and no collision check precedes the write"
+				}
+			}
+		}
 	}
 	if earlyReturns > 0 && !errOnly {
 		return "E4", "the loop can be left early with a non-error result that depends on which element came first"
